@@ -850,7 +850,9 @@ def base_descr(CL, **over):
 
 
 def make_cc_classes(rng, K):
-    """K synthetic convergence controller classes; class i may depend on classes j > i"""
+    """K synthetic convergence controller classes forming a class forest: class i may DERIVE from an
+    earlier class (chains, siblings) and may depend on classes j > i (which may be base or derived
+    classes of others).  Every class has its own setup()/dependencies()."""
     from pySDC.core.convergence_controller import ConvergenceController
     specs = []
     for i in range(K):
@@ -865,7 +867,8 @@ def make_cc_classes(rng, K):
             for k in rng.sample(['alpha', 'beta', 'control_order'], rng.randint(0, 2)):
                 p[k] = rng.choice([7, 8, 91, 199]) if k == 'control_order' else rng.choice([3, 'dep', False])
             deps.append((j, p))
-        specs.append({'defaults': defaults, 'deps': deps})
+        base = rng.randrange(i) if i > 0 and rng.random() < 0.5 else None
+        specs.append({'defaults': defaults, 'deps': deps, 'base': base})
     clss = []
     for i in range(K):
         def setup(self, controller, params, description, _i=i, **kw):
@@ -874,8 +877,20 @@ def make_cc_classes(rng, K):
         def dependencies(self, controller, description, _i=i, **kw):
             for j, p in specs[_i]['deps']:
                 controller.add_convergence_controller(clss[j], description=description, params=dict(p))
-        clss.append(type('SynthCC%d' % i, (ConvergenceController,), {'setup': setup, 'dependencies': dependencies}))
+        parent = ConvergenceController if specs[i]['base'] is None else clss[specs[i]['base']]
+        clss.append(type('SynthCC%d' % i, (parent,), {'setup': setup, 'dependencies': dependencies}))
     return specs, clss
+
+
+def cc_closure(specs, roots):
+    """indices of the synthetic classes that have to exist: the requested ones and, transitively, their dependencies"""
+    todo, seen = list(roots), set()
+    while todo:
+        i = todo.pop()
+        if i not in seen:
+            seen.add(i)
+            todo += [j for j, _ in specs[i]['deps']]
+    return seen
 
 
 def part_controllers(ck, CL):
@@ -901,6 +916,13 @@ def part_controllers(ck, CL):
         K = rng.randint(2, 9)
         specs, clss = make_cc_classes(rng, K)
         chosen = rng.sample(range(K), rng.randint(1, min(K, 5)))
+        derived = [i for i in range(K) if specs[i]['base'] is not None]
+        if derived and rng.random() < 0.6:      # a derived class listed before (one of) its base classes
+            dcls = rng.choice(derived)
+            anc = specs[dcls]['base']
+            while specs[anc]['base'] is not None and rng.random() < 0.4:
+                anc = specs[anc]['base']
+            chosen = [dcls] + [i for i in chosen if i not in (dcls, anc)][:3] + [anc]
         user = {}
         for i in chosen:
             p = {}
@@ -962,7 +984,11 @@ def part_controllers(ck, CL):
         if err:
             ck.violation('controller with synthetic convergence controllers raised ' + err, replay, match={'kind': 'cc-raise'})
             continue
-        orc = oracle_cc(C, user)
+        replay['inheritance'] = {clss[i].__name__: clss[sp['base']].__name__ for i, sp in enumerate(specs) if sp['base'] is not None}
+        needed = [clss[i] for i in sorted(cc_closure(specs, [clss.index(c) for c in user if c in clss]))] + base_classes + [spreader]
+        orc = oracle_cc(C, user, needed)
+        if not orc and len(user) > 1:
+            orc = oracle_cc_order(CL, C, user, needed, rng)
         if orc:
             ck.violation('convergence controllers: ' + '; '.join(orc[:3]), dict(replay, problems=orc), match={'kind': 'cc-oracle', 'what': orc[0].split(':')[0]})
             continue
@@ -1042,15 +1068,89 @@ def part_controllers(ck, CL):
             continue
         for c in C.convergence_controllers:
             hist[type(c).__name__] = hist.get(type(c).__name__, 0) + 1
-        orc = oracle_cc(C, user)
+        orc = oracle_cc(C, user, base_classes + [spreader])
         if orc:
             ck.violation('convergence controllers (real classes): ' + '; '.join(orc[:3]), dict(replay, problems=orc),
                          match={'kind': 'cc-oracle', 'what': orc[0].split(':')[0], 'real': True})
     ck.cov['real_convergence_controller_histogram'] = hist
 
+    # ---- shipped (derived, base) pairs: both requested, in both orders, alone and next to other controllers
+    import inspect
+    import pkgutil
+    from pySDC.core.convergence_controller import ConvergenceController
+    hints = {'Adaptivity': {'e_tol': 1e-6}, 'AdaptivityRK': {'e_tol': 1e-6}, 'AdaptivityResidual': {'e_tol': 1e-6}, 'AdaptivityCollocation': {'e_tol': 1e-6},
+             'AdaptivityExtrapolationWithinQ': {'e_tol': 1e-6}, 'AdaptivityPolynomialError': {'e_tol': 1e-6},
+             'HotRod': {'HotRod_tol': 1.0}, 'StepSizeLimiter': {'dt_max': 1.0}, 'StopAtMaxRuntime': {'max_runtime': 1e6},
+             'CheckIterationEstimatorNonMPI': {'errtol': 1e-6}}
+    shipped = {}
+    for m in pkgutil.iter_modules(pkg.__path__):
+        try:
+            mod = importlib.import_module(pkg.__name__ + '.' + m.name)
+        except Exception:
+            continue
+        for n, c in inspect.getmembers(mod, inspect.isclass):
+            if issubclass(c, ConvergenceController) and c.__module__ == mod.__name__:
+                shipped[n] = c
 
-def oracle_cc(C, user):
-    """one instance per class, every user class present, call order ascending in control_order, user parameters win"""
+    def try_build(userd, nprocs=1):
+        adaptive = any(n.__name__.startswith('Adaptivity') or n.__name__ == 'HotRod' for n in userd)
+        d_ = base_descr(CL, convergence_controllers={c: dict(p) for c, p in userd.items()}, level_params={'dt': 0.1, 'restol': -1.0 if adaptive else 1e-9})
+        with Capture():
+            try:
+                return controller_nonMPI(nprocs, {'logger_level': 30, 'mssdc_jac': False}, d_), None
+            except Exception as e:
+                return None, '%s: %s' % (type(e).__name__, str(e)[:120])
+    alone = {}
+    for n, c in sorted(shipped.items()):
+        Cc, err = try_build({c: dict(hints.get(n, {}))})
+        alone[n] = Cc is not None and c in [type(x) for x in Cc.convergence_controllers]
+    pairs = [(dn, bn) for dn, dc in sorted(shipped.items()) for bn, bc in sorted(shipped.items())
+             if dc is not bc and issubclass(dc, bc) and alone[dn] and alone[bn]]
+    tested = []
+    extras = [shipped[n] for n in ('StoreUOld', 'StepSizeLimiter', 'StopAtNan') if alone.get(n)]
+    for dn, bn in pairs:
+        for order in ((dn, bn), (bn, dn)):
+            for extra in ([], [rng.choice(extras)] if extras else []):
+                userd = {shipped[n]: dict(hints.get(n, {}), **({'control_order': rng.choice([-300, 97, 350])} if rng.random() < 0.5 else {})) for n in order}
+                for e in extra:
+                    userd[e] = dict(hints.get(e.__name__, {}))
+                Cc, err = try_build(userd)
+                replay = {'user': {c.__name__: p for c, p in userd.items()}, 'subclass_pair': {'derived': dn, 'base': bn}}
+                ck.case(key=('cc-subclass-pair', dn, bn, order[0], len(extra)), nontrivial=True)
+                ck.traces += 1
+                if err:
+                    # constructible alone but not together: only a problem when the other order / the singles work -> report as raise
+                    ck.violation('controller with %s and %s raised %s' % (dn, bn, err), replay, match={'kind': 'cc-raise', 'real': True, 'pair': dn})
+                    continue
+                orc = oracle_cc(Cc, userd, base_classes + [spreader])
+                if orc:
+                    ck.violation('convergence controllers (shipped derived/base pair %s/%s, %s listed first): %s' % (dn, bn, order[0], '; '.join(orc[:3])),
+                                 dict(replay, problems=orc), match={'kind': 'cc-oracle', 'what': orc[0].split(':')[0], 'real': True, 'pair': dn})
+        tested.append('%s < %s' % (dn, bn))
+    # the library-only triple of the HotRod family: HotRod loads the linearized (derived) estimator first
+    trip = [n for n in ('HotRod', 'Adaptivity', 'EstimateEmbeddedError') if alone.get(n)]
+    if len(trip) == 3:
+        for order in (trip, trip[::-1], [trip[1], trip[0], trip[2]]):
+            userd = {shipped[n]: dict(hints.get(n, {})) for n in order}
+            userd[shipped['EstimateEmbeddedError']]['rel_error'] = True
+            Cc, err = try_build(userd)
+            replay = {'user': {c.__name__: p for c, p in userd.items()}}
+            ck.case(key=('cc-hotrod-triple', tuple(order)), nontrivial=True)
+            ck.traces += 1
+            if err:
+                ck.notes.append('HotRod triple %s not constructible: %s' % (order, err))
+                continue
+            orc = oracle_cc(Cc, userd, base_classes + [spreader])
+            if orc:
+                ck.violation('convergence controllers (HotRod, Adaptivity, EstimateEmbeddedError; %s first): %s' % (order[0], '; '.join(orc[:3])),
+                             dict(replay, problems=orc), match={'kind': 'cc-oracle', 'what': orc[0].split(':')[0], 'real': True, 'pair': 'HotRod-triple'})
+    ck.cov['shipped_subclass_pairs_tested'] = tested
+    ck.cov['shipped_controllers_constructible_alone'] = sorted(n for n, ok in alone.items() if ok)
+
+
+def oracle_cc(C, user, needed=()):
+    """one instance per class, every requested class (user-supplied, dependency, controller default) present as an
+    instance of EXACTLY that class, call order ascending in control_order, user parameters win"""
     bad = []
     types = [type(c) for c in C.convergence_controllers]
     for t in set(types):
@@ -1058,7 +1158,13 @@ def oracle_cc(C, user):
             bad.append('duplicate: %s instantiated %d times' % (t.__name__, types.count(t)))
     for c in user:
         if c not in types:
-            bad.append('missing: user-supplied %s not instantiated' % c.__name__)
+            stand_in = [t.__name__ for t in types if issubclass(t, c)]
+            bad.append('missing: user-supplied %s not instantiated%s' % (c.__name__, ' (only its subclass %s is)' % stand_in if stand_in else ''))
+    for c in needed:
+        if c not in types and c not in user:
+            stand_in = [t.__name__ for t in types if issubclass(t, c)]
+            bad.append('missing: requested %s (dependency / controller default) not instantiated%s'
+                       % (c.__name__, ' (only its subclass %s is)' % stand_in if stand_in else ''))
     order = [int(i) for i in C.convergence_controller_order]
     if sorted(order) != list(range(len(types))):
         bad.append('order: convergence_controller_order %s is not a permutation of the %d controllers' % (order, len(types)))
@@ -1073,6 +1179,25 @@ def oracle_cc(C, user):
                     got = getattr(inst.params, k, '<missing>')
                     if not _val_eq(got, v):
                         bad.append('override: %s.params.%s = %r although the user supplied %r' % (c.__name__, k, got, v))
+    return bad
+
+
+def oracle_cc_order(CL, C, user, needed, rng):
+    """the set of instantiated classes and the user-supplied parameter values do not depend on the key order of
+    description['convergence_controllers'] (list order and parameters passed by dependencies may)"""
+    from pySDC.implementations.controller_classes.controller_nonMPI import controller_nonMPI
+    ks = list(user.keys())[::-1]
+    user2 = {k: dict(user[k]) for k in ks}
+    with Capture():
+        try:
+            C2 = controller_nonMPI(1, {'logger_level': 30}, base_descr(CL, convergence_controllers={c: dict(p) for c, p in user2.items()}))
+        except Exception as e:
+            return ['key-order: reversed key order raises %s: %s' % (type(e).__name__, str(e)[:100])]
+    bad = ['key-order (reversed): ' + b for b in oracle_cc(C2, user2, needed)]
+    t1 = sorted(type(c).__name__ for c in C.convergence_controllers)
+    t2 = sorted(type(c).__name__ for c in C2.convergence_controllers)
+    if t1 != t2:
+        bad.append('key-order: instantiated classes depend on the key order: %s vs %s (reversed)' % (t1, t2))
     return bad
 
 
